@@ -15,6 +15,13 @@ def miri(ws, pkg, shards_quick=1, shards_thorough=8, tiers=("quick", "thorough")
             "tiers": tiers, "many_seeds": many_seeds, "args": list(args), "binname": binname}
 
 
+def cargotest(ws, pkg, test, tiers=("quick", "thorough"), timeout=None, env=None):
+    """A monitor hosted in a #[test] (needed for simulator-driven checks): runs
+    `cargo test -p pkg --release -- <test> --exact --nocapture` with VERIF_PROP/TIER/SEED in the env."""
+    return {"kind": "cargotest", "ws": ws, "pkg": pkg, "test": test, "tiers": tiers, "timeout": timeout,
+            "env": env or {}}
+
+
 def custom(func, tiers=("quick", "thorough")):
     return {"kind": "custom", "func": func, "tiers": tiers}
 
